@@ -177,3 +177,23 @@ Definition timely_class (ifs : iftab) (h : list iter) : bool :=
 
 Definition is_dead_fail (f : BrowserSpec.fail) : bool :=
   match f with BrowserSpec.F05_dead _ _ _ _ _ _ => true | _ => false end.
+
+(* C03-reannounced-record-keeps-position (round 6), as a class of delivery logs: the SRV or the
+   TXT records of one name were delivered in the pattern A, B, A - a record, then a different
+   record of the same name and type, then the first one again *)
+Fixpoint aba_from (a : dlv) (seen_other : bool) (l : list dlv) : bool :=
+  match l with
+  | [] => false
+  | x :: t =>
+    if beq (r_name (dl_rr a)) (r_name (dl_rr x)) && (r_type (dl_rr a) =? r_type (dl_rr x))
+    then if same_key a x then seen_other || aba_from a false t else aba_from a true t
+    else aba_from a seen_other t
+  end.
+
+Fixpoint known_reannounced (l : list dlv) : bool :=
+  match l with
+  | [] => false
+  | a :: t =>
+    (((r_type (dl_rr a) =? TY_SRV) || (r_type (dl_rr a) =? TY_TXT)) && aba_from a false t)
+    || known_reannounced t
+  end.
